@@ -412,4 +412,71 @@ mod verif_replay_interp {
             assert_eq!(run(&error_doc(c), &[]), fin("pass"), "content {}", c);
         }
     }
+
+    fn sysvar_doc(content: &str, guard: &str) -> String {
+        format!(
+            r###"<scxml xmlns="http://www.w3.org/2005/07/scxml" name="machine" initial="s0" version="1.0" datamodel="rfsm-expression">
+ <datamodel><data id="v" expr="1"/></datamodel>
+ <state id="s0">
+  <onentry>{}</onentry>
+  <transition event="error.execution" target="s1"/>
+  <transition event="*" target="noerror"/>
+ </state>
+ <state id="s1">
+  <transition cond="{}" target="pass"/>
+  <transition target="changed"/>
+ </state>
+ <final id="pass"/><final id="noerror"/><final id="changed"/>
+</scxml>"###,
+            content, guard
+        )
+    }
+
+    /// C09: _sessionid, _name, _ioprocessors and _event cannot be modified by content: the attempt raises
+    /// error.execution and leaves the value intact (rfsm-expression data model)
+    #[test]
+    fn verif_replay_interp_system_variables_read_only() {
+        for (c, g) in [
+            (r#"<assign location="_sessionid" expr="'x'"/>"#, "_sessionid != 'x'"),
+            (r#"<assign location="_name" expr="'x'"/>"#, "_name == 'machine'"),
+            (r#"<assign location="_ioprocessors" expr="'x'"/>"#, "_ioprocessors != 'x'"),
+            (r#"<assign location="_event" expr="'x'"/>"#, "_event != 'x'"),
+            (r#"<script>_sessionid = 'x'</script>"#, "_sessionid != 'x'"),
+            (r#"<script>_name = 'x'</script>"#, "_name == 'machine'"),
+        ] {
+            assert_eq!(run(&sysvar_doc(c, g), &[]), fin("pass"), "content {}", c);
+        }
+        // control: content that does not fail raises no error.execution
+        assert_eq!(run(&sysvar_doc(r#"<raise event="r"/>"#, "true"), &[]), fin("noerror"));
+    }
+
+    fn event_doc(guard: &str) -> String {
+        format!(
+            r###"<scxml xmlns="http://www.w3.org/2005/07/scxml" name="machine" initial="s0" version="1.0" datamodel="rfsm-expression">
+ <state id="s0">
+  <onentry><send event="ping" id="sid1"><param name="p" expr="7"/></send></onentry>
+  <transition event="ping" cond="{}" target="pass"/>
+  <transition event="ping" target="wrongfields"/>
+ </state>
+ <final id="pass"/><final id="wrongfields"/>
+</scxml>"###,
+            guard
+        )
+    }
+
+    /// C09: while an event is processed _event exposes its name, type, sendid, origin, origintype, invokeid and data
+    #[test]
+    fn verif_replay_interp_event_fields() {
+        for g in [
+            "_event.name == 'ping'",
+            "_event.type == 'external'",
+            "_event.sendid == 'sid1'",
+            "_event.origintype == 'http://www.w3.org/TR/scxml/#SCXMLEventProcessor'",
+            "_event.origin == '#_scxml_' + _sessionid",
+            "_event.invokeid == null",
+            "_event.data.p == 7",
+        ] {
+            assert_eq!(run(&event_doc(g), &[]), fin("pass"), "guard {}", g);
+        }
+    }
 }
